@@ -299,28 +299,155 @@ def r08_advance(repo, sink):
         if c.name in R08_EXCEPTIONS:
             sink.ok("R08", f"advance:{c.name}", up, "named exception: " + R08_EXCEPTIONS[c.name])
             continue
+        # first choice: two abstract updates over a symbolic clock (rules/sched.py): the public `time` after an update is the
+        # time before it plus one step - wherever the assignment is written
+        from .sched import _abstract_update
+        clocks = []
+        try:
+            _abstract_update(repo, c, clocks)
+        except (AnalysisError, Undecided, Raised, KeyError, TypeError):
+            clocks = None
+        if clocks:
+            why = None
+            for k, (before, after) in enumerate(clocks, 1):
+                if after == before:
+                    why = why or f"update {k} leaves the clock at {before!r}: run() cannot terminate"
+                elif not (isinstance(after, Sym) and after.op == "tadd" and after.args[0] == before and after.args[1] == Sym("step")):
+                    why = why or f"update {k} moves the clock from {before!r} to {after!r}, not by exactly one step"
+            sink.check(why is None, "R08", f"advance:{c.name}", up, ok="every update advances the public clock by exactly one step", bad=why or "")
+            continue
+        # fallback (bodies outside the abstract vocabulary: file / console handling): the clock is stored on every path
         cfg = CFG(up.node)
         stores = []
+
+        def _stores_in(fn_node):
+            out = []
+            for n in fn_walk(fn_node):
+                if isinstance(n, (ast.Assign, ast.AugAssign)):
+                    targets = n.targets if isinstance(n, ast.Assign) else [n.target]
+                    flat = []
+                    for t in targets:
+                        flat.extend(t.elts if isinstance(t, ast.Tuple) else [t])
+                    if any(self_attr(t) in ("time", "_time") for t in flat):
+                        out.append(n)
+            return out
+
+        stores = _stores_in(up.node)
+        # a helper method that stores the clock on each of its paths counts as a store where it is called
         for n in fn_walk(up.node):
-            if isinstance(n, (ast.Assign, ast.AugAssign)):
-                targets = n.targets if isinstance(n, ast.Assign) else [n.target]
-                flat = []
-                for t in targets:
-                    flat.extend(t.elts if isinstance(t, ast.Tuple) else [t])
-                if any(self_attr(t) in ("time", "_time") for t in flat):
-                    stores.append(n)
+            if isinstance(n, ast.Call) and isinstance(n.func, ast.Attribute) and self_attr(n.func):
+                callee = repo.resolve(c, self_attr(n.func), "method")
+                if callee is not None and callee is not up:
+                    hs = _stores_in(callee.node)
+                    if hs:
+                        hcfg = CFG(callee.node)
+                        if not hcfg.reachable(hcfg.entry, hcfg.exit, avoid=[hcfg.node_of(x) for x in hs]) and all(_advances(x) for x in hs):
+                            st = n
+                            while not isinstance(st, ast.stmt):
+                                st = st._parent
+                            st._r08_helper = True
+                            stores.append(st)
         if not stores:
-            sink.bad("R08", f"advance:{c.name}", up, "_update never advances the component clock: run() cannot terminate")
+            sink.unknown("R08", f"advance:{c.name}", up, "_update is outside the abstract vocabulary and no clock assignment is found in it or its helpers")
             continue
         nodes = [cfg.node_of(s) for s in stores]
         every = not cfg.reachable(cfg.entry, cfg.exit, avoid=nodes)
         twice = any(cfg.reachable(a, b) for a in nodes for b in nodes)
-        forward = all(_advances(s) for s in stores)
+        forward = all(getattr(s, "_r08_helper", False) or _advances(s) for s in stores)
         sink.check(every and not twice and forward, "R08", f"advance:{c.name}", up,
                    ok="clock assigned exactly once on every path of _update (+= step or next data row)",
                    bad=("a path through _update leaves the clock unchanged" if not every else
                         "the clock is assigned more than once per update" if twice else
                         f"clock update is not an advance: {U(stores[0])}"))
+
+
+def r08r_reader_finishes(repo, sink):
+    """A table-driven component (CsvReader) declares itself FINISHED in the very update that emits its last row: the driver
+    updates every unfinished component below the end time again, and the next row does not exist.  Abstract run of the real
+    _connect and _update bodies over a three-row table stand-in."""
+    from ..absbase import seed_from_init, set_backed
+    from .sched import _Slots, _UpdateInterp
+    if not repo.has_cls("CsvReader"):
+        raise AnalysisError("CsvReader not found")
+    c = repo.cls("CsvReader")
+    up = repo.resolve(c, "_update", "method")
+    n_rows = 3
+
+    class _T(_UpdateInterp):
+        def ext_call(self, name, args, kwargs, node):
+            short = name.split(".")[-1]
+            if short == "read_csv":
+                return Obj(label="table")
+            if short in ("fromisoformat", "strptime", "to_datetime"):
+                return Sym("T0", args[0])
+            return super().ext_call(name, args, kwargs, node)
+
+        def get_attr(self, obj, attr, node, mod):
+            if isinstance(obj, Obj) and obj.label == "table":
+                if attr in ("iloc", "loc"):
+                    return Sym("rows")
+                if attr == "shape":
+                    return (n_rows, 2)
+                if attr == "index":
+                    return list(range(n_rows))
+            return super().get_attr(obj, attr, node, mod)
+
+        def builtin(self, name, args, kwargs, node):
+            if name == "len" and args and isinstance(args[0], Obj) and args[0].label == "table":
+                return n_rows
+            return super().builtin(name, args, kwargs, node)
+
+        def sym_item(self, cont, k, node):
+            if isinstance(cont, Sym) and cont.op == "rows":
+                if not isinstance(k, int):
+                    raise AnalysisError(f"table row selected by {k!r}")
+                if k >= n_rows or k < -n_rows:
+                    self.on_raise(Sym("exc", "IndexError", "single positional indexer is out-of-bounds"), node)
+                return Sym("row", k)
+            if isinstance(cont, Sym) and cont.op == "row":
+                return Sym("cell", cont.args[0], k)
+            return super().sym_item(cont, k, node)
+
+        def call_hook(self, fv, args, kwargs, node, mod):
+            if isinstance(fv, Closure) and getattr(fv.func, "name", "") == "try_connect":
+                return None
+            return super().call_hook(fv, args, kwargs, node, mod)
+
+    it = _T(repo)
+    me = Obj(cls=c, label="CsvReader")
+    try:
+        seed_from_init(it, c, me, {"path": Sym("X", "path"), "time_column": "time", "outputs": {"A": "m"}, "date_format": None, "separator": ";"})
+        me.fields["logger"] = Logger(label="logger")
+        set_backed(repo, me, "inputs", _Slots())
+        set_backed(repo, me, "outputs", _Slots({"A": Obj(label="A", markers={"slot"})}))
+        set_backed(repo, me, "connector", Obj(label="connector", fields={"out_infos": {"A": Obj(label="info")}, "in_infos": {}, "data_pushed": {"A": False}}))
+        it.store_attr(me, "status", Sym("enum", "ComponentStatus", "CONNECTING"), None)
+        it.run(repo.resolve(c, "_connect", "method"), [None], self_obj=me)
+        it.store_attr(me, "status", Sym("enum", "ComponentStatus", "VALIDATED"), None)
+        sg = repo.resolve(c, "status", "getter")
+        emitted = [t for (_n, _d, t) in it.pushes]
+        why, k = None, 0
+        while k < n_rows + 2:
+            if it.run(sg, [], self_obj=me) == Sym("enum", "ComponentStatus", "FINISHED"):
+                break
+            k += 1
+            it.pushes = []
+            try:
+                it.run(up, [], self_obj=me)
+            except Raised as r:
+                why = (f"update {k} raises {r.name}: after the last row was emitted the reader did not declare itself FINISHED, the driver updates it "
+                       "again (end time beyond the last row) and the run dies before anything is finalized")
+                break
+            emitted += [t for (_n, _d, t) in it.pushes]
+        else:
+            why = f"the reader is still not FINISHED after {k} updates of a {n_rows}-row table"
+        if why is None and k != n_rows - 1:
+            why = f"the reader finishes after {k} updates of a {n_rows}-row table whose first row is the initial data; {n_rows - 1} rows remain to be emitted"
+    except (AnalysisError, Undecided, Raised) as exc:
+        sink.unknown("R08", "reader-finishes-with-last-row", up, f"outside vocabulary: {exc}")
+        return
+    sink.check(why is None, "R08", "reader-finishes-with-last-row", up,
+               ok="every row is emitted once and the update that emits the last one leaves the reader FINISHED", bad=why or "")
 
 
 def _advances(s):
@@ -389,6 +516,10 @@ def r10_stall(repo, sink):
         "progress-then-stall": ({"A": [G, G, I], "B": [I]}, {"A", "B"}),
         "three-one-stalls-late": ({"A": [D], "B": [G, D], "C": [G, I]}, {"C"}),
         "failed-status": ({"A": [F], "B": [D]}, "FinamStatusError"),
+        # a long acyclic chain listed in reverse: every sweep makes progress somewhere, far more sweeps than components are needed
+        # (the number of sweeps is bounded by the exchanges, not by the number of components)
+        "many-sweeps-each-with-progress": ({"A": [G] * 9 + [D], "B": [I, G, I, G, I, G, I, G, D]}, None),
+        "three-slow-components": ({"A": [G] * 12 + [D], "B": [G] * 7 + [D], "C": [I] * 6 + [G, D]}, None),
     }
     for name, (scripts, expect) in scenarios.items():
         comps = []
